@@ -155,11 +155,11 @@ def runOne (cache : Cache) (j : Json) : Except String (List (String × Json) × 
   let c ← clsOfJson (← j.getObjVal? "cls")
   let camel ← (← j.getObjVal? "camel").getBool?
   let strict ← (← j.getObjVal? "strict").getBool?
-  -- `keep_undefined` as it reaches deserialize_structure_internal: "auto" = Deserializer's default
-  -- (on exactly when the target class forbids additional properties)
+  -- `keep_undefined` as it reaches deserialize_structure_internal: absent = Deserializer's default
+  -- (False for every class since /repo 005d815)
   let ku := match optField j "ku" with
     | some (.bool b) => b
-    | _ => c.closedAny
+    | _ => false
   let ov ← match optField j "explicit" with
     | none => pure none
     | some x => do pure (some (← mdictOfJson x))
